@@ -41,6 +41,51 @@ class TemplateModel:
 	def relpath(self, name: str) -> str:
 		return f'{self.reldir}/{name}.j2'
 
+	def flat(self, name: str):
+		"""copy of the template AST with `{% set x = expr %}` temporaries substituted into their uses (the output shape of a template does not
+		depend on whether a sub-expression was named first)"""
+		if not hasattr(self, '_flat'):
+			self._flat: dict[str, object] = {}
+		if name not in self._flat:
+			import copy
+			tree = copy.deepcopy(self.asts[name])
+			self._inline_sets(tree.body, {})
+			self._flat[name] = tree
+		return self._flat[name]
+
+	def _subst(self, node, env: dict):
+		"""replace loaded names bound by an earlier `set` (returns the replacement for node itself)"""
+		import copy
+		n = self.nodes
+		if isinstance(node, n.Name) and node.ctx == 'load' and node.name in env:
+			return copy.deepcopy(env[node.name])
+		for field, value in list(node.iter_fields()):
+			if isinstance(value, n.Node):
+				setattr(node, field, self._subst(value, env))
+			elif isinstance(value, list):
+				setattr(node, field, [self._subst(v, env) if isinstance(v, n.Node) else v for v in value])
+		return node
+
+	def _inline_sets(self, body: list, env: dict) -> None:
+		n = self.nodes
+		env = dict(env)
+		keep = []
+		for b in body:
+			if isinstance(b, n.Assign) and isinstance(b.target, n.Name):
+				env[b.target.name] = self._subst(b.node, env)
+				continue
+			if isinstance(b, n.If):
+				b.test = self._subst(b.test, env)
+				self._inline_sets(b.body, env)
+				for el in b.elif_:
+					el.test = self._subst(el.test, env)
+					self._inline_sets(el.body, env)
+				self._inline_sets(b.else_, env)
+				keep.append(b)
+				continue
+			keep.append(self._subst(b, env))
+		body[:] = keep
+
 	def exists(self, name: str) -> bool:
 		return name in self.sources
 
@@ -90,20 +135,28 @@ class TemplateModel:
 		"""[(condition source, [output parts])] of the top-level if/elif/else chain (or one unconditional branch).
 		An output part is ('text', str) or ('var', name, expr-node)."""
 		n = self.nodes
-		body = self.asts[name].body
+		body = self.flat(name).body
 		out: list[tuple[str, list]] = []
+
+		def part(e, parts) -> None:
+			if isinstance(e, n.TemplateData):
+				parts.append(('text', e.data))
+			elif isinstance(e, n.Const) and isinstance(e.value, str):
+				parts.append(('text', e.value))
+			elif isinstance(e, n.Concat):
+				for x in e.nodes:
+					part(x, parts)
+			elif isinstance(e, n.Name):
+				parts.append(('var', e.name, e))
+			else:
+				parts.append(('expr', self._src(e), e))
 
 		def parts_of(nodes_list) -> list:
 			parts = []
 			for b in nodes_list:
 				if isinstance(b, n.Output):
 					for e in b.nodes:
-						if isinstance(e, n.TemplateData):
-							parts.append(('text', e.data))
-						elif isinstance(e, n.Name):
-							parts.append(('var', e.name, e))
-						else:
-							parts.append(('expr', self._src(e), e))
+						part(e, parts)
 				else:
 					parts.append(('stmt', type(b).__name__, b))
 			return parts
